@@ -73,6 +73,16 @@ CLAIMED = {
     "C15": ("Partial. REFUTED (D7: comma, goto, break, continue, labels are accepted and dropped), rejected constructs shown rejected on the "
             "model; per run: K2 on each unsupported construct at every statement position; oracle: accepted program must not contain a construct "
             "of the property's list (known: the five dropped ones).", "model + refutation witnesses; K2; construct oracle"),
+    "C19": ("Proof over all strings for the splitting regexes (regenerated from the source with CPython's own regex parser into lib/Regex.v terms; theorems "
+            "split_line_roundtrip / split_compounds_spec / load_line_spec in proofs/PreProofs.v when present), examples and REFUTATIONS by vm_compute (D12a garbage before "
+            "`insn(` is accepted; D12b text before the first part marker is dropped). K5 ties model/Pre.v to the code on all 2181 bundled lines (quick: 500), all 72 "
+            "compounds and generated lines; the property oracle (whole line must be insn(NAME, BODY); parts must be exactly the marked regions) runs on the real results.",
+            "Coq proofs over regenerated regexes + K5 correspondence + reference oracle"),
+    "C20": ("Partial: pcpp is not modelled. The repository's own steps cleanup_macros / patch_macros / replace_do_while_0 are modelled over the regenerated regexes and tied by K5 "
+            "(bundled macro files, generated macro/patch sets in a scratch copy, generated do-while bodies); property oracles on the real results (each patch exactly once, "
+            "unpatched macros preserved in order, user-only patches prepended; reference do-while stripper); full regeneration in a scratch copy reproduces the bundled files; "
+            "clang -E as an independent preprocessor agrees on all 2181 definitions; names one-to-one; no defined macro invocation survives. REFUTED: look-alike identifiers "
+            "(D12c) and neighbouring loops (D12d) are mangled by the greedy regex.", "Coq model + examples/refutations; K5; scratch-copy regeneration and independent preprocessor (test)"),
 }
 
 FULL = {
